@@ -35,7 +35,9 @@ import (
 //	{op: newvalue, v: abstract Go value} -> {ok, val, back, ej, pjok, pj}
 //	{op: anyurl, url, n, reg}            -> {name, is, to, new}
 //	{op: anyrt, type, other, seed}       -> {url, name, is, isother, to, toother, new}
-//	{op: types}                          -> {types: registered message type names usable for anyrt}
+//	{op: anybox, T, tn, steps}           -> {tn, obs}   (anybox.go: one history of the AnyBox machine)
+//	{op: types}                          -> {types: registered message type names usable for anyrt / anybox,
+//	                                         facts: which abstract slots each of them has (anybox.go)}
 //
 // Abstract Go value {g, x}: see spec/wkt/StructVal.tla.
 func init() {
@@ -342,6 +344,9 @@ func structvalExec(c core.Case) core.Case {
 			ts = append(ts, chars(n))
 		}
 		out["types"] = ts
+		out["facts"] = boxFacts()
+	case "anybox":
+		return boxExec(c)
 	default:
 		panic("harness: unknown structval op " + op)
 	}
@@ -444,8 +449,10 @@ func structvalGen(r *rand.Rand, n int, emit func(core.Case)) {
 	names := []string{"a", "b", "a.b", "ab", "a.b.a", "b1._x"}
 	for i := 0; i < n; i++ {
 		switch r.IntN(10) {
-		case 0, 1, 2, 3, 4:
+		case 0, 1, 2, 3:
 			emit(core.Case{"op": "newvalue", "v": randGoAbs(r, 3)})
+		case 4, 9:
+			emit(boxGen(r))
 		case 5, 6:
 			var b strings.Builder
 			for k := r.IntN(6); k > 0; k-- {
